@@ -65,6 +65,11 @@ pub fn write_scenarios(tier: Tier) -> Vec<WriteScn> {
     for n in [127usize, 128, 255, 256, 1023, 1024, 4095, 4096] {
         push(pat(n), &mut v);
     }
+    // lengths beyond 16 bits (the length word is a longword, while an H8 `int` has 16 bits: a loop counter narrowed to
+    // 16 bits was invisible - hand-made probe, seeded/hand): buffer fixed in DRAM, clear of code and argument blocks
+    for n in [0xffffusize, 0x10000, 0x10001, 0x1ffff] {
+        v.push(WriteScn { text: pat(n), buf: 0x480000, arg: 0xffe800, pc: dom::CODE_RAM, ccr: 0x80 });
+    }
     // every code point class alone, doubled, and surrounded
     for cp in code_points() {
         push(cp.as_bytes().to_vec(), &mut v);
@@ -291,7 +296,7 @@ fn c14_units(tier: Tier) -> Vec<Unit> {
     let n = scn.len() as u64;
     let chunks = 16u64.min(n);
     let dom = format!(
-        "{} write calls: all lengths 0-64 and 127,128,255,256,1023,1024,4095,4096; every code-point class (NUL, newline, CR, backslash, quote, DEL, 2/3/4-byte UTF-8 incl. U+0080, U+07FF, U+0800, U+FFFD, U+10000, U+10FFFF) alone/doubled/embedded; every string of up to {} symbols over an 8-symbol alphabet; long runs; buffers and argument blocks in on-chip RAM and DRAM incl. their first and last bytes; message checked in-process, console bytes through a child process whose stdout is a pipe",
+        "{} write calls: all lengths 0-64 and 127,128,255,256,1023,1024,4095,4096 and H'FFFF, H'10000, H'10001, H'1FFFF; every code-point class (NUL, newline, CR, backslash, quote, DEL, 2/3/4-byte UTF-8 incl. U+0080, U+07FF, U+0800, U+FFFD, U+10000, U+10FFFF) alone/doubled/embedded; every string of up to {} symbols over an 8-symbol alphabet; long runs; buffers and argument blocks in on-chip RAM and DRAM incl. their first and last bytes; message checked in-process, console bytes through a child process whose stdout is a pipe",
         n,
         if tier == Tier::Thorough { 4 } else { 3 }
     );
